@@ -69,7 +69,15 @@ def render_need(n):
     if k == "bool":
         return pre + n["state"]
     if k in ("elapsed", "recurred"):
-        return pre + "%s %s %s" % (k, n["op"], lit(n["goal"]))
+        # optional explicit spelling `state re [me|framername]`; goal direct or from a share; optional tolerance
+        s = k
+        if n.get("re") is not None:
+            s += " re" + ((" " + n["re"]) if n["re"] else "")
+        goal = n["goal"]
+        s += " %s %s" % (n["op"], goal["path"] if isinstance(goal, dict) else lit(goal))
+        if n.get("tol") is not None:
+            s += " +- %s" % lit(n["tol"])
+        return pre + s
     if k == "done":
         return pre + "%s is done" % n["tasker"]
     if k == "status":
